@@ -33,15 +33,23 @@ Definition ups_min (l : list (N * Z)) : Z :=
 Definition sys := (registry * db)%type.
 
 (* SetTimer: a timer on or before the composite watermark is a no-op *)
+Definition store_set (q : quirks) (kgf : bytes -> N) (wm : Z) (key : bytes) (t : Z) (s : tstore) (d : db) : tstore * db :=
+  if negb (wm <? t)%Z then (s, d) else ts_push q (timer_key (kgf key) t key) d s.
+
 Definition set_timer (q : quirks) (kgf : bytes -> N) (key : bytes) (t : Z) (st : sys) : sys :=
   let '(r, d) := st in
-  if negb (r_wm r <? t)%Z then st
-  else let '(s', d') := ts_push q (timer_key (kgf key) t key) d (r_store r) in
-       ({| r_store := s'; r_ups := r_ups r; r_wm := r_wm r |}, d').
+  let '(s', d') := store_set q kgf (r_wm r) key t (r_store r) d in
+  ({| r_store := s'; r_ups := r_ups r; r_wm := r_wm r |}, d').
+
+(* SetTimer calls made by the consumer of the iterator right after the n-th yield (the operator's event batch filled up):
+   [during] lists (n, key, t); r.watermark already is the new composite watermark *)
+Definition during_sets (q : quirks) (kgf : bytes -> N) (wm : Z) (n : nat) (during : list (nat * bytes * Z)) (s : tstore) (d : db) : tstore * db :=
+  fold_left (fun sd e => let '(a, k, t) := e in if Nat.eqb a n then store_set q kgf wm k t (fst sd) (snd sd) else sd) during (s, d).
 
 (* the loop of AdvanceWatermark's iterator, drained: GetEarliest; stop if After(composite); Delete; yield.
-   Every round deletes one DB entry, so [S (length d)] rounds suffice. *)
-Fixpoint fire (q : quirks) (fuel : nat) (wm : Z) (s : tstore) (d : db) (acc : list (bytes * Z)) : list (bytes * Z) * tstore * db :=
+   Every round deletes one DB entry that was there at the start or was set meanwhile. *)
+Fixpoint fire (q : quirks) (kgf : bytes -> N) (fuel : nat) (wm : Z) (n : nat) (during : list (nat * bytes * Z))
+         (s : tstore) (d : db) (acc : list (bytes * Z)) : list (bytes * Z) * tstore * db :=
   match fuel with
   | O => (rev acc, s, d)
   | S f =>
@@ -50,21 +58,24 @@ Fixpoint fire (q : quirks) (fuel : nat) (wm : Z) (s : tstore) (d : db) (acc : li
       | None => (rev acc, s1, d)
       | Some k =>
           if (wm <? key_time k)%Z then (rev acc, s1, d)
-          else let '(s2, d2) := ts_delete q k d s1 in fire q f wm s2 d2 ((key_subject k, key_time k) :: acc)
+          else let '(s2, d2) := ts_delete q k d s1 in
+               let '(s3, d3) := during_sets q kgf wm (S n) during s2 d2 in
+               fire q kgf f wm (S n) during s3 d3 ((key_subject k, key_time k) :: acc)
       end
   end.
 
-Definition advance (q : quirks) (sender : N) (wm : Z) (st : sys) : list (bytes * Z) * sys :=
+Definition advance (q : quirks) (kgf : bytes -> N) (sender : N) (wm : Z) (during : list (nat * bytes * Z)) (st : sys) : list (bytes * Z) * sys :=
   let '(r, d) := st in
   let ups := ups_set sender wm (r_ups r) in
   let cw := ups_min ups in
-  let '(out, s', d') := fire q (S (length d)) cw (r_store r) d [] in
+  let '(out, s', d') := fire q kgf (S (length d + length during)) cw O during (r_store r) d [] in
   (out, ({| r_store := s'; r_ups := ups; r_wm := cw |}, d')).
 
 (* histories *)
 Inductive op :=
 | SetTimer (key : bytes) (t : Z)
 | Advance (sender : N) (wm : Z)
+| AdvanceSet (sender : N) (wm : Z) (during : list (nat * bytes * Z))   (* SetTimer (key, t) right after the n-th yield *)
 | Restore.    (* checkpoint + restore: a new TimerStore and TimerRegistry over the DB content at this point *)
 
 Record config := { cf_q : quirks; cf_kgf : bytes -> N; cf_start : N; cf_size : N; cf_cache : N; cf_srids : list N }.
@@ -75,7 +86,8 @@ Definition sys_new (c : config) (d : db) : sys :=
 Definition step (c : config) (o : op) (st : sys) : list (list (bytes * Z)) * sys :=
   match o with
   | SetTimer k t => ([], set_timer (cf_q c) (cf_kgf c) k t st)
-  | Advance s wm => let '(out, st') := advance (cf_q c) s wm st in ([out], st')
+  | Advance s wm => let '(out, st') := advance (cf_q c) (cf_kgf c) s wm [] st in ([out], st')
+  | AdvanceSet s wm during => let '(out, st') := advance (cf_q c) (cf_kgf c) s wm during st in ([out], st')
   | Restore => ([], sys_new c (snd st))
   end.
 
